@@ -3,11 +3,20 @@
 //                                                 truncation points; executed for target char types {char, char16_t, char32_t} x
 //                                                 {Skip, ThrowError} with chunk size row["C"] (32 or the default 256)
 //   encstream_harness write <scenarios.ndjson>    writer scenarios (parts in all three source widths)
+//   encstream_harness writeseq <scenarios.ndjson> sequences of Write(fragment) calls - accepted and rejected ones - on ONE writer
+//                                                 object; logs the return code and the stream bytes after every call
+//   encstream_harness detect <scenarios.ndjson>   DetectEncoding(std::istream&, skipBomWhenFound) on a stream whose first p bytes
+//                                                 were already consumed; logs detected encoding, tellg() and the rest of the stream
+//   encstream_harness csv <scenarios.ndjson>      LoadObject<CsvArchive>(std::vector<Row>, std::istream&) on TLC-written CSV byte
+//                                                 streams (chunk size = default template argument of this build); logs rows / exception
 // Logs per run: detected encoding, (result, mStartDataPtr, mEndDataPtr offsets) after every ReadChunk, the concatenated output,
 // the final result; a client loop that does not terminate is logged as "hang":true (call limit), a call that does not
 // return as {"e":"Hang"} (alarm).  The harness never judges.
 #include "vh_common.h"
 #include "bitserializer/convert.h"
+#include "bitserializer/bit_serializer.h"
+#include "bitserializer/csv_archive.h"
+#include "bitserializer/types/std/vector.h"
 #include <csignal>
 
 namespace Utf = BitSerializer::Convert::Utf;
@@ -193,6 +202,148 @@ static int ModeWrite(const char* path)
 	return 0;
 }
 
+//------------------------------------------------------------------------------------------------
+// Writer: a sequence of calls on one object
+//------------------------------------------------------------------------------------------------
+static const char* CodeName(Utf::UtfEncodingErrorCode c)
+{
+	switch (c) {
+	case Utf::UtfEncodingErrorCode::Success: return "Success";
+	case Utf::UtfEncodingErrorCode::InvalidSequence: return "InvalidSequence";
+	case Utf::UtfEncodingErrorCode::UnexpectedEnd: return "UnexpectedEnd";
+	}
+	return "?";
+}
+
+template <class TChar>
+static std::string RunWriteSeq(const rapidjson::Value& d)
+{
+	std::ostringstream os(std::ios::out | std::ios::binary);
+	Utf::CEncodedStreamWriter writer(os, UtfFromName(d["e"].GetString()), d["bom"].GetBool(),
+		d["skip"].GetBool() ? UtfEncodingErrorPolicy::Skip : UtfEncodingErrorPolicy::ThrowError);
+	std::string calls = "[{\"code\":\"init\",\"bytes\":" + vh::BytesJson(os.str()) + "}";
+	for (auto& part : d["frags"].GetArray())
+	{
+		std::basic_string<TChar> s;
+		for (auto& x : part.GetArray()) s.push_back(static_cast<TChar>(x.GetUint()));
+		const auto rc = writer.Write(s);
+		calls += std::string(",{\"code\":\"") + CodeName(rc) + "\",\"bytes\":" + vh::BytesJson(os.str()) + "}";
+	}
+	return calls + "]";
+}
+
+static int ModeWriteSeq(const char* path)
+{
+	for (const auto& lineIn : vh::ReadLines(path))
+	{
+		rapidjson::Document d;
+		d.Parse(lineIn.c_str());
+		const std::string id = d["id"].GetString();
+		Arm("writeseq " + id);
+		const int sw = d["sw"].GetInt();
+		const std::string calls = sw == 8 ? RunWriteSeq<char>(d) : sw == 16 ? RunWriteSeq<char16_t>(d) : RunWriteSeq<char32_t>(d);
+		alarm(0);
+		std::string frags = "[";
+		bool f = true;
+		for (auto& p : d["frags"].GetArray()) { if (!f) frags += ','; f = false; frags += IntsJson(p); }
+		frags += "]";
+		std::string line = "{\"id\":\"" + id + "\",\"wseq\":true,\"e\":\"" + d["e"].GetString() + "\",\"bom\":" + (d["bom"].GetBool() ? "true" : "false") +
+			",\"sw\":" + std::to_string(sw) + ",\"skip\":" + (d["skip"].GetBool() ? "true" : "false") + ",\"frags\":" + frags + ",\"calls\":" + calls + "}\n";
+		fputs(line.c_str(), stdout);
+	}
+	return 0;
+}
+
+//------------------------------------------------------------------------------------------------
+// DetectEncoding(std::istream&, skipBomWhenFound) behind a consumed preamble
+//------------------------------------------------------------------------------------------------
+static int ModeDetect(const char* path)
+{
+	for (const auto& lineIn : vh::ReadLines(path))
+	{
+		rapidjson::Document d;
+		d.Parse(lineIn.c_str());
+		const std::string id = d["id"].GetString();
+		const std::string pre = vh::BytesFromJson(d["pre"]);
+		const std::string text = vh::BytesFromJson(d["bytes"]);
+		std::string runs;
+		for (int skip = 0; skip <= 1; ++skip)
+		{
+			Arm("detect " + id);
+			std::istringstream is(pre + text, std::ios::in | std::ios::binary);
+			std::string consumed(pre.size(), '\0');
+			is.read(consumed.data(), static_cast<std::streamsize>(consumed.size()));      // the caller has consumed the preamble
+			const long before = static_cast<long>(is.tellg());
+			const auto utf = Utf::DetectEncoding(is, skip != 0);
+			const bool good = is.good();
+			const long pos = static_cast<long>(is.tellg());
+			std::string rest;
+			{
+				char buf[512];
+				while (is.read(buf, sizeof buf) || is.gcount() > 0) rest.append(buf, static_cast<size_t>(is.gcount()));
+			}
+			alarm(0);
+			runs += std::string(skip ? "," : "") + "{\"skip\":" + (skip ? "true" : "false") + ",\"utf\":\"" + UtfName(utf) + "\",\"before\":" + std::to_string(before) +
+				",\"pos\":" + std::to_string(pos) + ",\"good\":" + (good ? "true" : "false") + ",\"rest\":" + vh::BytesJson(rest) + "}";
+		}
+		std::string line = "{\"id\":\"" + id + "\",\"det\":true,\"e\":\"" + d["e"].GetString() + "\",\"bom\":" + (d["bom"].GetBool() ? "true" : "false") +
+			",\"cps\":" + IntsJson(d["cps"]) + ",\"p\":" + std::to_string(pre.size()) + ",\"runs\":[" + runs + "]}\n";
+		fputs(line.c_str(), stdout);
+	}
+	return 0;
+}
+
+//------------------------------------------------------------------------------------------------
+// CSV stream entry point
+//------------------------------------------------------------------------------------------------
+struct CsvRow
+{
+	std::string a, b;
+	template <class TArchive> void Serialize(TArchive& archive)
+	{
+		archive << BitSerializer::KeyValue("a", a);
+		archive << BitSerializer::KeyValue("b", b);
+	}
+};
+
+static std::string NestedJson(const rapidjson::Value& v)
+{
+	if (!v.IsArray()) return std::to_string(v.GetInt64());
+	std::string o = "[";
+	bool f = true;
+	for (auto& x : v.GetArray()) { if (!f) o += ','; f = false; o += NestedJson(x); }
+	return o + "]";
+}
+
+static int ModeCsv(const char* path)
+{
+	const size_t chunk = Utf::CEncodedStreamReader<char>::chunk_size;
+	for (const auto& lineIn : vh::ReadLines(path))
+	{
+		rapidjson::Document d;
+		d.Parse(lineIn.c_str());
+		const std::string id = d["id"].GetString();
+		if (static_cast<size_t>(d["C"].GetInt()) != chunk) { fprintf(stderr, "scenario %s is for chunk %d, this build has %zu\n", id.c_str(), d["C"].GetInt(), chunk); return 3; }
+		const std::string bytes = vh::BytesFromJson(d["bytes"]);
+		const std::string kind = d.HasMember("kind") ? d["kind"].GetString() : "sstream";
+		Arm("csv " + id);
+		auto holder = vh::MakeStream(kind, bytes);
+		std::vector<CsvRow> rows;
+		std::string exc;
+		try { BitSerializer::LoadObject<BitSerializer::Csv::CsvArchive>(rows, holder.get()); }
+		catch (const std::exception& ex) { exc = ex.what(); }
+		alarm(0);
+		std::string loaded = "[";
+		for (size_t i = 0; i < rows.size(); ++i) loaded += std::string(i ? "," : "") + "[" + vh::BytesJson(rows[i].a) + "," + vh::BytesJson(rows[i].b) + "]";
+		loaded += "]";
+		std::string line = "{\"id\":\"" + id + "\",\"csv\":true,\"e\":\"" + d["e"].GetString() + "\",\"bom\":" + (d["bom"].GetBool() ? "true" : "false") +
+			",\"fb\":" + (d["fb"].GetBool() ? "true" : "false") + ",\"C\":" + std::to_string(chunk) + ",\"len\":" + std::to_string(bytes.size()) + ",\"kind\":\"" + kind +
+			"\",\"rows\":" + NestedJson(d["rows"]) + ",\"loaded\":" + loaded + ",\"exc\":\"" + vh::JsonEscape(exc) + "\"}\n";
+		fputs(line.c_str(), stdout);
+	}
+	return 0;
+}
+
 int main(int argc, char** argv)
 {
 	vh::InstallTerminateHandler();
@@ -200,6 +351,9 @@ int main(int argc, char** argv)
 	const std::string mode = argc > 1 ? argv[1] : "";
 	if (mode == "read" && argc >= 3) return ModeRead(argv[2]);
 	if (mode == "write" && argc >= 3) return ModeWrite(argv[2]);
-	fprintf(stderr, "usage: encstream_harness read|write <scenarios.ndjson>\n");
+	if (mode == "writeseq" && argc >= 3) return ModeWriteSeq(argv[2]);
+	if (mode == "detect" && argc >= 3) return ModeDetect(argv[2]);
+	if (mode == "csv" && argc >= 3) return ModeCsv(argv[2]);
+	fprintf(stderr, "usage: encstream_harness read|write|writeseq|detect|csv <scenarios.ndjson>\n");
 	return 3;
 }
